@@ -4,6 +4,8 @@ CONSTANTS
   T = 4
   Builder = "old"
   ExcludeTouch = TRUE
+  U = 1
+  TruncEnd = FALSE
   ExcludeZeroPairs = TRUE
 INVARIANT TotalOrder
 INVARIANT Sortable
